@@ -53,7 +53,8 @@ def generate(st):
         on = ['k2', 'k1']
     explicit_defaults = None
     if sw.random() < 0.4:
-        explicit_defaults = {p['name']: sw.choice([0, -1, None]) for p in params if sw.random() < 0.4}
+        # a default is a value or (documented) a formula of the key columns
+        explicit_defaults = {p['name']: sw.choice([0, -1, None, {'formula': on[0]}]) for p in params if sw.random() < 0.4}
     cfg = {
         'params': params, 'on': on, 'defaults': explicit_defaults,
         'if_none': sw.random() < 0.25, 'include_inputs': sw.random() < 0.15,
@@ -75,6 +76,7 @@ def generate(st):
     }
     # renames = {parameter: column}: which column of a wider table feeds the parameter (documented option)
     cfg['renames'] = {sw.choice(names): 'src'} if sw.random() < 0.15 else None
+    cfg['reenter'] = sw.random() < 0.25        # f itself uses lifted functions / join while it is being evaluated
     if cfg['bigkeys']:
         cfg['keys_int'] = True
         cfg['n_days'] = min(cfg['n_days'], 3)
@@ -209,6 +211,9 @@ def generate(st):
                 del todays[q['name']]          # the caller relies on the parameter's own default today
         op_ = {'op': 'call', 'inputs': todays, 'expiry': expiry, 'data': data, 'loss': loss, 'also_join': g.random() < 0.3,
                'scalar_feedback': g.random() < 0.4}
+        if cfg.get('reenter') and g.random() < 0.5:
+            op_['reenter'] = True
+            op_['reenter_at'] = g.choice([1, 1, 2, 3])
         if cfg['faulty'] and cfg['dict_output'] and f.random() < 0.2:
             op_['loss_aux'] = True
         if cfg['faulty'] and f.random() < 0.08:
@@ -223,6 +228,12 @@ def generate(st):
 # ----------------------------------------------------------------------------------------------
 # reference model of the keyed join
 # ----------------------------------------------------------------------------------------------
+def _dflt(d, kd):
+    if isinstance(d, dict) and 'formula' in d:
+        return ('D', kd.get(d['formula']))
+    return d
+
+
 def model_join(on, inputs, defaults, allow_partial=False):
     """inputs: name -> ('scalar', v) | ('table', keycols, {keytuple: value});
     returns None when the call has no table input, else (keycols_present, list of (keydict, values dict))"""
@@ -252,6 +263,8 @@ def model_join(on, inputs, defaults, allow_partial=False):
             # an unmatched key keeps None in the column it cannot know and takes the default
             if not (allow_partial and len(withdef) == 1 and all(c in withdef[0][1][1] for c in on)):
                 return 'AMBIGUOUS'
+            if isinstance(defaults[withdef[0][0]], dict):
+                return 'AMBIGUOUS'       # a formula of a key column the unmatched rows do not have: not defined
             rel = None
             for name, t in nodef:
                 r = rows_of(t)
@@ -274,7 +287,7 @@ def model_join(on, inputs, defaults, allow_partial=False):
                 else:
                     kd2 = {c: kd.get(c) for c in on}
                     v2 = dict(vals)
-                    v2[dname] = defaults[dname]
+                    v2[dname] = _dflt(defaults[dname], kd2)
                     out.append((kd2, v2))
             return out
         # natural join of the key relations
@@ -314,7 +327,7 @@ def model_join(on, inputs, defaults, allow_partial=False):
             if not all(c in kd for c in t[1]):
                 ok = None
             has, v = lookup(t, kd)
-            vals[name] = v if has else defaults[name]
+            vals[name] = v if has else _dflt(defaults[name], kd)
         if ok:
             out.append((kd, vals))
     return out
@@ -327,6 +340,9 @@ class SimFError(Exception):
     pass
 
 
+HOOK = {'fn': None, 'depth': 0, 'seen': 0, 'at': 1}      # what f does, while it is being evaluated for a row, with the library
+
+
 def _make_f(params, ledger, dict_output=False, arm=None):
     """a real def with the drawn signature; records every call; the value carries the call number so a kept
     value can be told from a recomputed one"""
@@ -334,10 +350,16 @@ def _make_f(params, ledger, dict_output=False, arm=None):
     body = ', '.join("'%s': %s" % (p['name'], p['name']) for p in params)
     src = ("def f(%s):\n"
            "    args = {%s}\n"
+           "    if hook['depth']: return 'inner:' + '|'.join('%%s=%%r' %% (k, args[k]) for k in sorted(args))\n"
+           "    hook['seen'] += 1\n"
+           "    if hook['fn'] is not None and hook['seen'] == hook['at']:\n"
+           "        fn_, hook['fn'], hook['depth'] = hook['fn'], None, 1\n"
+           "        try: fn_()\n"
+           "        finally: hook['depth'] = 0\n"
            "    ledger.append(dict(args))\n"
            "    if arm and arm[0] == len(ledger): raise (StopIteration() if len(arm) > 1 and arm[1] == 'stop' else KeyError('injected') if len(arm) > 1 and arm[1] == 'key' else SimFError('injected at evaluation %%d' %% len(ledger)))\n"
            "    return 'v#%%d:%%s' %% (len(ledger), '|'.join('%%s=%%r' %% (k, args[k]) for k in sorted(args)))\n") % (sig, body)
-    ns = {'ledger': ledger, 'arm': arm, 'SimFError': SimFError}
+    ns = {'ledger': ledger, 'arm': arm, 'SimFError': SimFError, 'hook': HOOK}
     exec(src, ns)
     f = ns['f']
     if not dict_output:
@@ -367,8 +389,23 @@ def execute(trace, ctx=None):
     arm = []               # [n]: the n-th evaluation of f (counted over the whole run) raises
     f = _make_f(params, ledger, dict_mode, arm)
     kwargs = {'on': list(on) if (len(on) > 1 or cfg.get('on_as_list', True)) else on[0]}       # a single key may be given as a plain string
+    formula_bad = []
+
+    def real_default(d):
+        if not (isinstance(d, dict) and 'formula' in d):
+            return d
+
+        def body(v):
+            if cfg.get('reenter'):
+                # the formula looks something up with a join of its own, on another key
+                from pyg_base import join as _j
+                r_ = _j({'u': dictable({'qq': ['b', 'a'], 'u': [1, 2]}), 'w': 5}, on='qq')
+                if [dict(x) for x in r_] != [{'qq': 'a', 'u': 2, 'w': 5}, {'qq': 'b', 'u': 1, 'w': 5}]:
+                    formula_bad.append([dict(x) for x in r_])
+            return ('D', v)
+        return eval('lambda %s: body(%s)' % (d['formula'], d['formula']), {'body': body})
     if cfg.get('defaults') is not None:
-        kwargs['defaults'] = dict(cfg['defaults'])
+        kwargs['defaults'] = {kk: real_default(vv) for kk, vv in cfg['defaults'].items()}
     if cfg.get('if_none'):
         # the documented forms: True, or the list of output columns concerned
         kwargs['if_none'] = True if not cfg.get('if_none_as_list') else (['data', 'aux'] if cfg.get('dict_output') else [cfg.get('col', 'data')])
@@ -485,7 +522,7 @@ def execute(trace, ctx=None):
             if op.get('also_join') and has_table:
                 from pyg_base import join as _join
                 jin = {nm: (call[nm].copy() if is_dictable_like(call[nm]) else call[nm]) for nm in call}
-                jd = {kk: vv for kk, vv in jdefaults.items()}
+                jd = {kk: real_default(vv) for kk, vv in jdefaults.items()}
                 jkw = {'renames': dict(renames)} if renames else {}
                 jt = lib(lambda: _join(jin, on=list(on), defaults=dict(jd), **jkw), 'join(%s)' % sorted(jin))
                 res.probe('join-called-directly')
@@ -628,7 +665,40 @@ def execute(trace, ctx=None):
                 # fewer rows were evaluated than raise_at: the call completed normally but its result was discarded; the
                 # evaluations are gone from the ledger's point of view
                 continue
-            out = lib(lambda: p(**call), 'perdictable call %s' % sorted(call))
+            HOOK.update(fn=None, depth=0, seen=0, at=int(op.get('reenter_at') or 1))
+            rebox = {}
+            if op.get('reenter') and has_table:
+                def reenter_():
+                    # f looks something up through the library while it is being evaluated for one row: the SAME lifted function
+                    # on tables of its own, another lifted function, and a join on another key
+                    ks_ = [['zz1', 'zz2', 'zz3'][:len(on)], ['zy1', 'zy2', 'zy3'][:len(on)], ['zx1', 'zx2', 'zx3'][:len(on)]]
+                    ins_ = {}
+                    for j_, q in enumerate(params):
+                        ins_[q['name']] = table(list(on), ks_, renames.get(q['name'], q['name']), [900 + 10 * j_ + i_ for i_ in range(3)])
+                    r_ = p(**ins_)
+                    if dict_mode and isinstance(r_, dict) and not is_dictable_like(r_):
+                        r_ = r_.get('data')        # one table per output of f
+                    want_ = ['inner:' + '|'.join('%s=%r' % (q['name'], 900 + 10 * j_ + i_) for j_, q in sorted(enumerate(params), key=lambda e: e[1]['name'])) for i_ in (2, 1, 0)]
+                    gotv_ = [(r[col]['data'] if isinstance(r[col], dict) else r[col]) if col in r else r.get('data') for r in r_] if is_dictable_like(r_) else r_
+                    if not is_dictable_like(r_) or len(r_) != 3 or [r[on[0]] for r in r_] != ['zx1', 'zy1', 'zz1'] or gotv_ != want_:
+                        rebox['bad'] = 'the same lifted function, called by f for tables of its own, returned %r (expected keys zx1, zy1, zz1 with %r)' % (
+                            [dict(r) for r in r_] if is_dictable_like(r_) else r_, want_)
+                    other_ = perdictable(lambda u, w=2: ('o', u, w), on=on[0])
+                    r2_ = other_(u=table([on[0]], [['b2'], ['a2']], 'u', [7, 8]))
+                    if not is_dictable_like(r2_) or [dict(r) for r in r2_] != [{on[0]: 'a2', 'data': ('o', 8, 2)}, {on[0]: 'b2', 'data': ('o', 7, 2)}]:
+                        rebox['bad'] = 'another lifted function, called from inside f, returned %r' % ([dict(r) for r in r2_] if is_dictable_like(r2_) else r2_,)
+                HOOK['fn'] = reenter_
+            try:
+                out = lib(lambda: p(**call), 'perdictable call %s' % sorted(call))
+            finally:
+                fired_ = op.get('reenter') and has_table and HOOK['fn'] is None
+                HOOK.update(fn=None, depth=0)
+            if rebox.get('bad'):
+                raise Violation('reentrant-call', rebox['bad'], k)
+            if formula_bad:
+                raise Violation('reentrant-call', 'a join made by a default formula while the outer join was being assembled returned %r' % (formula_bad[0],), k)
+            if fired_:
+                res.probe('f-reenters-the-library')
             calls = ledger[before:]
             res.stat('calls')
             # ---- all-scalar call: returns f(...) itself
